@@ -24,17 +24,17 @@ if seeded:
         meta = json.load(open(os.path.join(d, "meta.json")))
         n = os.path.basename(d.rstrip("/"))
         if prop in ("all", meta["property"]) and (not names or n in names):
-            todo.append((meta["property"], n, os.path.join(d, "patch.diff")))
+            todo.append((meta["property"], n, os.path.join(d, "patch.diff"), meta.get("also_check", [])))
 else:
     props = sorted(os.listdir("/verif/mutants")) if prop == "all" else [prop]
     for p in props:
         for f in sorted(glob.glob("/verif/mutants/%s/*.diff" % p)):
             n = os.path.basename(f)[:-5]
             if not names or n in names:
-                todo.append((p, n, f))
+                todo.append((p, n, f, []))
 
 def one(item):
-    p, n, f = item
+    p, n, f, also = item
     t0 = time.time()
     if inplace:
         assert subprocess.run(["git", "-C", "/repo", "status", "--porcelain"], stdout=subprocess.PIPE, text=True).stdout.strip() == "", "/repo not clean"
@@ -54,9 +54,15 @@ def one(item):
         if suite:
             r = subprocess.run(["go", "test", "-vet=off", "-count=1", "-timeout", "120s", "./..."], cwd=repo, env=env, stdout=subprocess.PIPE, stderr=subprocess.STDOUT, text=True)
             st = " suite=" + ("pass" if r.returncode == 0 else "FAIL")
-        r = subprocess.run(["./check", p, "--tier", tier], cwd="/verif", env=e, stdout=subprocess.PIPE, stderr=subprocess.STDOUT, text=True)
-        keys = [l for l in r.stdout.splitlines() if l.startswith("#   key=")]
-        return (p, n, {0: "MISSED", 1: "caught", 2: "INCONCLUSIVE"}.get(r.returncode, "rc=%d" % r.returncode) + st, time.time() - t0, keys[:1])
+        for chk in [p] + list(also):
+            r = subprocess.run(["./check", chk, "--tier", tier], cwd="/verif", env=e, stdout=subprocess.PIPE, stderr=subprocess.STDOUT, text=True)
+            keys = [l for l in r.stdout.splitlines() if l.startswith("#   key=")]
+            if r.returncode == 1:
+                break
+        verdict = {0: "MISSED", 1: "caught", 2: "INCONCLUSIVE"}.get(r.returncode, "rc=%d" % r.returncode)
+        if r.returncode == 1 and chk != p:
+            verdict += " by " + chk
+        return (p, n, verdict + st, time.time() - t0, keys[:1])
     finally:
         if inplace:
             subprocess.run(["git", "-C", "/repo", "checkout", "--", "."])
